@@ -9,6 +9,7 @@ THEOREMS = [
     "C18_params_side_conditions", "C18_ids_strictly_increasing", "C18_ids_unique_in_lifetime",
     "C18_pack_injective", "C18_unique_across_shards", "C18_recovery_reproduces_ids", "C18_issued_nonzero",
     "C18_across_restart_refuted", "C18_across_restart_order_refuted", "C18_across_restart_outside_known",
+    "C18_unique_ids_all_rows_visible", "C18_visible_after_restart_outside_known", "C18_restart_drops_rows_refuted",
     "C18_before_epoch_refuted", "C18_beyond_window_refuted", "C18_shard_tag_aliases",
     "C18_synthetic_collide", "C18_synthetic_injective", "C18_row_ids_outside_known",
 ]
@@ -232,6 +233,12 @@ def cases(rng, tier):
         (k1, f1), (k2, f2) = chain(2, mode, True)
         add("ctx_restart_" + mode, "eid_life2 %d %s / %s" % (sh, " ".join(life_tokens(k1, f1)), " ".join(life_tokens(k2, f2))),
             readings=[f1, f2], shard=sh)
+    # ---- end to end: DEFINE / STORE / restart / STORE / QUERY through the real dispatcher on one real shard
+    for _ in range(10 * mult):
+        mode = rng.choice(["adv", "same", "back"])
+        (k1, f1), (k2, f2) = chain(2, mode, True)
+        add("engine_restart_" + mode, "eid_engine %s / %s" % (" ".join(life_tokens(k1, f1)), " ".join(life_tokens(k2, f2))),
+            readings=[f1, f2], shard=0, stored=k1 + k2)
     # the epoch itself on shard 0: id 0 is written and regenerated on recovery
     for sh in (0, 1, 1024):
         k1, f1 = finish_script([E, E], 2)
@@ -325,6 +332,20 @@ def _problems(c, impl):
     line = c["line"]
     if line.startswith("eid_raw"):
         return []
+    if line.startswith("eid_engine"):
+        m = re.fullmatch(r"Q stored=(\d+) returned=(\d+) x=(\S+) ids=(\S+)", impl)
+        if not m:
+            return [(f"unexpected answer {impl}", "crash")]
+        stored, returned, xs, ids = int(m.group(1)), int(m.group(2)), _ids(m.group(3)), _ids(m.group(4))
+        probs = []
+        if stored != c.get("stored", stored):
+            probs.append((f"{stored} STOREs acknowledged, expected {c.get('stored')}", "crash"))
+        if xs != list(range(stored)):
+            missing = sorted(set(range(stored)) - set(xs))
+            probs.append((f"QUERY returned {returned} of {stored} stored events; missing x = {missing[:6]}", "restart"))
+        if len(set(ids)) != len(ids) or not _strictly_increasing(ids):
+            probs.append((f"event_id column not strictly increasing in append order: {_first_bad(ids)}", "restart"))
+        return probs
     if line.startswith("eid_synth"):
         parts = impl[2:].split(" / ") if impl.startswith("S ") else None
         zones = c.get("zones")
@@ -424,6 +445,16 @@ def classify(c, impl):
     outside = any(r <= E or r >= E + W for r in flat)
     if outside:
         return "ClockOutsideWindow"
+    if tags <= {"restart"} and c["line"].startswith("eid_engine"):
+        # the first reading after the restart against the largest millisecond in the ids the first lifetime produced
+        # (= the ids of the rows x < k1 that came back; rows of the first lifetime are never the dropped ones)
+        m = re.fullmatch(r"Q stored=(\d+) returned=(\d+) x=(\S+) ids=(\S+)", impl)
+        k1 = int(c["line"].split()[1])
+        xs, ids = _ids(m.group(3)), _ids(m.group(4))
+        first = [i for x, i in zip(xs, ids) if x < k1]
+        if first and reads[1] and reads[1][0] <= max((i >> (SHB + SQB)) + E for i in first):
+            return "RestartClockNotAdvanced"
+        return None
     if tags <= {"restart"}:
         # known class: the first reading of a lifetime does not exceed the last millisecond used before it
         lives = _parse(c, impl)
